@@ -101,18 +101,39 @@ theorem arith_neutralizeRaw {op : BinOp} {l r : Arg} {c : Bool} {a' : Arg}
     simp only [arith, Bool.and_eq_true]
     exact ⟨trivial, this.2, this.1⟩
 
+theorem arith_neutralizeRaw_all : ∀ (a : Arg) (c : Bool) (a' : Arg), neutralizeRaw a = .ok (c, a') →
+    arith isReg a' = true → arith isReg a = true := by
+  apply Arg.negNegInd
+  · intro a hnn c a' he h
+    cases a with
+    | bin op l r =>
+      have := arith_neutralizeRaw isReg he h
+      simp only [arith, Bool.and_eq_true]; exact this
+    | neg v =>
+      rcases neutralizeRaw_neg_cases v with h0 | ⟨x, y, rfl, h0⟩ | ⟨w, rfl, _⟩
+      · rw [h0] at he
+        simp only [Res.ok.injEq, Prod.mk.injEq] at he
+        obtain ⟨_, rfl⟩ := he
+        exact h
+      · rw [h0] at he
+        obtain ⟨_, c', he'⟩ := swapped_ok he
+        have := arith_neutralizeBin isReg he' h
+        simp only [arith, Bool.and_eq_true]
+        exact ⟨this.2, this.1⟩
+      · exact absurd rfl (hnn w)
+    | _ =>
+      simp only [neutralizeRaw, Res.ok.injEq, Prod.mk.injEq] at he
+      obtain ⟨_, rfl⟩ := he; exact h
+  · intro w ih c a' he h
+    rw [neutralizeRaw_neg_neg] at he
+    obtain ⟨_, c', he'⟩ := swapped_ok he
+    simp only [arith]
+    exact ih c' a' he' h
+
 theorem arith_neutralizeRaw_neg {v : Arg} {c : Bool} {a' : Arg}
     (he : neutralizeRaw (.neg v) = .ok (c, a')) (h : arith isReg a' = true) : arith isReg v = true := by
-  rcases neutralizeRaw_neg_cases v with h0 | ⟨x, y, rfl, h0⟩
-  · rw [h0] at he
-    simp only [Res.ok.injEq, Prod.mk.injEq] at he
-    obtain ⟨_, rfl⟩ := he
-    simpa [arith] using h
-  · rw [h0] at he
-    obtain ⟨_, c', he'⟩ := swapped_ok he
-    have := arith_neutralizeBin isReg he' h
-    simp only [arith, Bool.and_eq_true]
-    exact ⟨this.2, this.1⟩
+  have := arith_neutralizeRaw_all isReg (.neg v) c a' he h
+  simpa [arith] using this
 
 theorem arith_neutralize : ∀ a (c : Bool) (a' : Arg), neutralize a = .ok (c, a') → arith isReg a' = true →
     arith isReg a = true := by
@@ -334,6 +355,15 @@ theorem simplifyRaw_arith : ∀ (a : Arg) (c : Bool) (a' : Arg), simplifyRaw a =
         have := arith_neutralizeRaw isReg hn h
         simp only [arith, Bool.and_eq_true]
         exact ⟨this.2, this.1⟩
+      | err e => simp [hn] at he
+      | panic => simp [hn] at he
+    · rename_i w
+      cases hn : neutralizeRaw (.neg (.neg w)) with
+      | ok p =>
+        obtain ⟨c1, x⟩ := p
+        simp only [hn, Res.ok.injEq, Prod.mk.injEq] at he
+        obtain ⟨_, rfl⟩ := he
+        exact arith_neutralizeRaw_all isReg _ _ _ hn h
       | err e => simp [hn] at he
       | panic => simp [hn] at he
     · rfl
